@@ -2,6 +2,7 @@ import NessaiVerif.Proofs.ReparamBox
 import NessaiVerif.Proofs.ReparamPrior
 import NessaiVerif.Proofs.ReparamCombine
 import NessaiVerif.Proofs.ReparamReal
+import NessaiVerif.Gen.RescaleTx
 /-
 C07 — reparameterisations are exact bijections with consistent Jacobians and priors.   PARTIAL (see the end of the file).
 Property theorems only.  Stage 1 (any linearly ordered field `K`, so ℚ — what the driver executes — and ℝ): the affine
@@ -539,5 +540,28 @@ NOT SHOWN (the property is therefore PARTIAL in Lean; these clauses are checked 
 -/
 
 end Real
+
+/-! ## The rescaling primitives of the source, regenerated on every run, ARE the model's -/
+section source
+variable {K : Type} [Field K] [LinearOrder K]
+
+/-- `Gen/RescaleTx.lean` is produced by `harness/pylog2lean.py` from the current text of the four affine primitives of
+`nessai/utils/rescaling.py` (value as written; the returned log-Jacobian `±log(xmax - xmin)`, `log 2 - log(…)` read as a
+log-domain number, i.e. as the Jacobian factor).  They are the model's primitives, for every field and every argument —
+so the round-trip, Jacobian and prior theorems above are about the source as it is now. -/
+theorem rescale_primitives_source_eq_model (lg ex : K → K) (x xmin xmax : K) :
+    Gen.RescaleTx.rescale_zero_to_one lg ex x xmin xmax = rescaleZeroToOne x xmin xmax ∧
+    Gen.RescaleTx.inverse_rescale_zero_to_one lg ex x xmin xmax = inverseRescaleZeroToOne x xmin xmax ∧
+    Gen.RescaleTx.rescale_minus_one_to_one lg ex x xmin xmax = rescaleMinusOneToOne x xmin xmax ∧
+    Gen.RescaleTx.inverse_rescale_minus_one_to_one lg ex x xmin xmax = inverseRescaleMinusOneToOne x xmin xmax := by
+  have h2 : ((2 : Nat) : K) = 1 + 1 := by norm_num
+  refine ⟨rfl, rfl, ?_, ?_⟩ <;>
+    simp only [Gen.RescaleTx.rescale_minus_one_to_one, Gen.RescaleTx.inverse_rescale_minus_one_to_one,
+      rescaleMinusOneToOne, inverseRescaleMinusOneToOne, two, h2]
+
+example : Gen.RescaleTx.rescale_minus_one_to_one (fun x => x) (fun x => x) (3 : ℚ) 1 5 = (0, 1 / 2) := by
+  norm_num [Gen.RescaleTx.rescale_minus_one_to_one]
+
+end source
 
 end NessaiVerif.C07
